@@ -14,6 +14,7 @@ import (
 	"encoding/json"
 	"fmt"
 	"image"
+	"image/color"
 	"math"
 	"os"
 	"regexp"
@@ -709,6 +710,26 @@ func oneHist(c *hc.Ctx) {
 
 var cffBytes []byte
 
+func histGradients() ([]canvas.Gradient, []string) {
+	mk := func(radial bool, offs []float64) canvas.Gradient {
+		cols := []color.RGBA{{255, 0, 0, 255}, {0, 128, 0, 255}, {0, 0, 255, 255}}
+		if radial {
+			g := canvas.NewRadialGradient(canvas.Point{X: 10, Y: 10}, 0, canvas.Point{X: 10, Y: 10}, 20)
+			for i, o := range offs {
+				g.Add(o, cols[i])
+			}
+			return g
+		}
+		g := canvas.NewLinearGradient(canvas.Point{X: 0, Y: 0}, canvas.Point{X: 30, Y: 5})
+		for i, o := range offs {
+			g.Add(o, cols[i])
+		}
+		return g
+	}
+	return []canvas.Gradient{mk(false, []float64{0, 1}), mk(true, []float64{0, 1}), mk(false, []float64{0, 1}), mk(false, []float64{0, 0.4, 1})},
+		[]string{"L0", "R1", "L0", "L3"}
+}
+
 // three tiny images: opaque, with alpha (soft mask object), opaque drawn lossy (DCT)
 func histImages(c *hc.Ctx) []image.Image {
 	mk := func(alpha bool) image.Image {
@@ -745,6 +766,17 @@ func histAttempt(c *hc.Ctx) bool {
 	var fontRefs []int // refs handed out for embedded fonts (H and V), in order of reservation
 	seenRef := map[int]bool{}
 	alphas := []float64{1, 0.5, 0.25, 0, 0.75}
+	// gradients: g2 has the same value as g0 but is another object (the writer compares values);
+	// the SAME objects are used on every page of the history
+	grads, gradKeys := histGradients()
+	var pageKeys [][]string // per page (in NewPage order): distinct gradient values in order of first use
+	var curKeys []string
+	closePageKeys := func() {
+		if hasPage {
+			pageKeys = append(pageKeys, curKeys)
+		}
+		curKeys = nil
+	}
 	var imageToks []string
 	nImages := 0
 	imgSeen := map[int]bool{}
@@ -826,6 +858,7 @@ func histAttempt(c *hc.Ctx) bool {
 			c.Count("hist:op-getfont")
 		case k <= 8:
 			wd, ht := float64(10+c.Intn(200)), c.Range(10, 300)
+			closePageKeys()
 			flushTable()
 			w.NewPage(wd, ht)
 			hasPage, inText = true, false
@@ -836,6 +869,7 @@ func histAttempt(c *hc.Ctx) bool {
 				i--
 				if c.Chance(0.5) {
 					// make progress: open a page
+					closePageKeys()
 					flushTable()
 					w.NewPage(100, 100)
 					hasPage, inText = true, false
@@ -844,7 +878,30 @@ func histAttempt(c *hc.Ctx) bool {
 				}
 				continue
 			}
-			switch c.Intn(9) {
+			switch c.Intn(11) {
+			case 9, 10:
+				gi := c.Intn(len(grads))
+				stroke := c.Chance(0.4)
+				paint := canvas.Paint{Gradient: grads[gi]}
+				if stroke {
+					do(func() { w.SetStrokePaint(paint) })
+				} else {
+					do(func() { w.SetFillPaint(paint) })
+				}
+				ops = append(ops, "SG", hc.B(stroke), hx([]byte(gradKeys[gi])), hx([]byte(pdf.VerifDec(1.0))))
+				if hasPage {
+					dup := false
+					for _, k := range curKeys {
+						dup = dup || k == gradKeys[gi]
+					}
+					if !dup {
+						curKeys = append(curKeys, gradKeys[gi])
+					}
+					if len(pageKeys) > 0 {
+						c.Count("hist:gradient-on-later-page")
+					}
+				}
+				c.Count("hist:op-setgradient")
 			case 8:
 				id := c.Intn(len(imgs))
 				lossy := id == 2
@@ -985,6 +1042,7 @@ func histAttempt(c *hc.Ctx) bool {
 		goOut = "PANIC"
 		c.Count("hist:panic")
 	} else if doClose {
+		closePageKeys()
 		flushTable()
 		date = time.Now().Format(dateLayout)
 		posBefore := w.Pos()
@@ -1074,6 +1132,40 @@ func histAttempt(c *hc.Ctx) bool {
 	line = append(line, fontToks...)
 	line = append(line, strconv.Itoa(nImages))
 	line = append(line, imageToks...)
+	// pattern dictionaries getPattern built: recovered from the /Resources /Pattern of the written pages, where
+	// the j-th distinct gradient value of a page must be found under the page-local name P<j>
+	{
+		out := w.Bytes()
+		offs := w.Offsets()
+		r := &rd{b: out}
+		seen := map[string]bool{}
+		var ptoks []string
+		npat := 0
+		for i, ref := range w.Pages() {
+			if i >= len(pageKeys) || ref < 1 || ref > len(offs) {
+				break
+			}
+			p := r.regEnd(offs[ref-1])
+			p = r.regEnd(r.sws(p))
+			p = r.sws(p) + 3
+			pg, _, ok := r.parseObj(true, p, 0)
+			if !ok {
+				continue
+			}
+			for j, k := range pageKeys[i] {
+				v := pg.get("Resources").get("Pattern").get("P" + strconv.Itoa(j))
+				if v == nil || seen[k] {
+					continue
+				}
+				seen[k] = true
+				ptoks = append(ptoks, hx([]byte(k)))
+				pvTokens(v, nil, false, &ptoks)
+				npat++
+			}
+		}
+		line = append(line, strconv.Itoa(npat))
+		line = append(line, ptoks...)
+	}
 	line = append(line, hc.B(doClose))
 	line = append(line, ops...)
 	c.Case(strings.Join(line, " "), "=", goOut)
